@@ -500,4 +500,43 @@ def boundaries (body : Body) : List Int → TrapMap → List (Nat × Nat) → Tr
     let r := runTrapsForCaughtSignals body false t e
     boundaries body es r.traps (runs ++ r.runs)
 
+/-! ## The boundary after a command (`yash-semantics/src/command.rs`, `Command::execute`) -/
+
+/-- declaration order of `Divert` (`Continue`/`Break`, lumped in `other`, come first) -/
+def Divert.rank : Divert → Nat
+  | .other => 0
+  | .ret _ => 2
+  | .interrupt _ => 3
+  | .exit _ => 4
+
+def Divert.payload : Divert → Option Int
+  | .other => none
+  | .ret s => s
+  | .interrupt s => s
+  | .exit s => s
+
+def optLe : Option Int → Option Int → Bool
+  | none, _ => true
+  | some _, none => false
+  | some a, some b => a ≤ b
+
+/-- derived `Ord::max` on `Divert` -/
+def Divert.max (a b : Divert) : Divert :=
+  if a.rank < b.rank then b
+  else if b.rank < a.rank then a
+  else if optLe a.payload b.payload then b else a
+
+/-- the `match (main_result, trap_result)` of `Command::execute` -/
+def mergeDivert : Option Divert → Option Divert → Option Divert
+  | m, none => m
+  | none, t => t
+  | some a, some b => some (a.max b)
+
+/-- the tail of `Command::execute`: whatever the command itself resulted in (`main`, a divert
+    or not), `run_traps_for_caught_signals` is called, and the two results are merged -/
+def afterCommand (body : Body) (inTrap : Bool) (main : Option Divert) (t : TrapMap) (exit : Int)
+    : RunResult :=
+  let r := runTrapsForCaughtSignals body inTrap t exit
+  { r with divert := mergeDivert main r.divert }
+
 end YashModel.Trap
